@@ -1,0 +1,79 @@
+//go:build verif
+
+// Contracts of the pairing entry points of this curve (comment-only; installed by /verif/gcv gen-contracts).
+// The final exponentiation of this curve is not under contract.
+
+package bw6761
+
+// ---------------- entry points built on the Miller loop and the final exponentiation ----------------
+//
+// MillerLoop / MillerLoopFixedQ and FinalExponentiation are opaque calls here (arbitrary results): what is proved is
+// how the entry points compose them: an error of the Miller loop (size mismatch, empty input) is returned as the
+// error, with no value computed from it; otherwise the value is the final exponentiation of exactly the Miller
+// loop's result (no extra factor), and the check variants compare that value with one.
+
+//@ func Pair
+//@ layer module fptower.E6
+//@ option opaque MillerLoop FinalExponentiation
+//@ ghost mlok = false
+//@ ghost ml = 0
+//@ ghost fein = 0
+//@ ghost feout = 0
+//@ ghost extra = 0
+//@ cut after call MillerLoop #1
+//@ + ghost mlok = isnil(callresult1)
+//@ + ghost ml = callresult0
+//@ cut after call FinalExponentiation #1
+//@ + ghost fein = *callarg0
+//@ + ghost feout = callresult
+//@ + ghost extra = len(callarg1)
+//@ ensures[error] !mlok ==> !isnil(result1)
+//@ ensures[value] mlok ==> isnil(result1) && result0 == feout && fein == ml && extra == 0
+//@ modifies nothing
+//@ end
+
+//@ func PairingCheck
+//@ layer module fptower.E6
+//@ option opaque Pair
+//@ ghost pok = false
+//@ ghost pv = 0
+//@ cut after call Pair #1
+//@ + ghost pok = isnil(callresult1)
+//@ + ghost pv = callresult0
+//@ ensures[error] !pok ==> !result0 && !isnil(result1)
+//@ ensures[value] pok ==> isnil(result1) && result0 == (pv == 0)
+//@ modifies nothing
+//@ end
+
+//@ func PairFixedQ
+//@ layer module fptower.E6
+//@ option opaque MillerLoopFixedQ FinalExponentiation
+//@ ghost mlok = false
+//@ ghost ml = 0
+//@ ghost fein = 0
+//@ ghost feout = 0
+//@ ghost extra = 0
+//@ cut after call MillerLoopFixedQ #1
+//@ + ghost mlok = isnil(callresult1)
+//@ + ghost ml = callresult0
+//@ cut after call FinalExponentiation #1
+//@ + ghost fein = *callarg0
+//@ + ghost feout = callresult
+//@ + ghost extra = len(callarg1)
+//@ ensures[error] !mlok ==> !isnil(result1)
+//@ ensures[value] mlok ==> isnil(result1) && result0 == feout && fein == ml && extra == 0
+//@ modifies nothing
+//@ end
+
+//@ func PairingCheckFixedQ
+//@ layer module fptower.E6
+//@ option opaque PairFixedQ
+//@ ghost pok = false
+//@ ghost pv = 0
+//@ cut after call PairFixedQ #1
+//@ + ghost pok = isnil(callresult1)
+//@ + ghost pv = callresult0
+//@ ensures[error] !pok ==> !result0 && !isnil(result1)
+//@ ensures[value] pok ==> isnil(result1) && result0 == (pv == 0)
+//@ modifies nothing
+//@ end
